@@ -50,8 +50,8 @@ BASE_ASSUME = [
 PROPS = {
     "C01": {
         "title": "The store behaves as a key-value map for every operation sequence",
-        "rules": [k2.p3_publish_after_append, k3.s1_roles, k2m.p4_merge_per_entry_order, k2m.p5_merge_outputs_before_unlink, k5.p17_read_under_index_guard, k2.p14_rollover_test, k2.p6b_pool_filled, k3.s2_live_vs_recovery, k2m.s7_s8_merge_sets, k8.s12_config_setters, k9.s15_position_tracking, k9.s14_reader_cache_keying, k9.s21_forwarding, k9.s22_one_codec, k9.p21_new_active_datafile],
-        "decides": "put publishes exactly the appended record's location, only after a successful append, with the id of the file the bytes went to; delete appends a tombstone, removes the key and reports presence; (fileid,len,pos) keep their roles through every call and struct; merge re-points an entry only to the bytes it just copied, at the offset before advancing, resetting the offset per output; the read happens under the index guard; rollover test after each append; a merge rotates the active file above its outputs and removes inputs oldest first; the reader pool is filled to its capacity (also for concurrency 0); put/delete perform exactly the live-path index effects; copy set = removed set; Config setters store what they are given; positions are tracked by the byte counts really transferred and an append reports (position before, position after − before); the reader cache is keyed by the file id asked for; the forwarding layers (trait impl, Handle::get, PooledReader, Reader::get → record.value | None) forward; writer and readers use one bincode configuration; new_active_datafile always switches to the file of the id it was given",
+        "rules": [k2.p3_publish_after_append, k3.s1_roles, k2m.p4_merge_per_entry_order, k2m.p5_merge_outputs_before_unlink, k5.p17_read_under_index_guard, k2.p14_rollover_test, k2.p6b_pool_filled, k3.s2_live_vs_recovery, k2m.s7_s8_merge_sets, k8.s12_config_setters, k9.s15_position_tracking, k9.s14_reader_cache_keying, k9.s21_forwarding, k9.s22_one_codec, k9.p21_new_active_datafile, k1.w1_file_mutation_api, controls.control("W1")],
+        "decides": "put publishes exactly the appended record's location, only after a successful append, with the id of the file the bytes went to; delete appends a tombstone, removes the key and reports presence; (fileid,len,pos) keep their roles through every call and struct; merge re-points an entry only to the bytes it just copied, at the offset before advancing, resetting the offset per output; the read happens under the index guard; rollover test after each append; a merge rotates the active file above its outputs and removes inputs oldest first; the reader pool is filled to its capacity (also for concurrency 0); put/delete perform exactly the live-path index effects; copy set = removed set; Config setters store what they are given; positions are tracked by the byte counts really transferred and an append reports (position before, position after − before); the reader cache is keyed by the file id asked for; the forwarding layers (trait impl, Handle::get, PooledReader, Reader::get → record.value | None) forward; writer and readers use one bincode configuration; new_active_datafile always switches to the file of the id it was given; data and merge output files are created exclusively (create_new): an id collision after a failed merge fails loudly instead of appending to a foreign file",
         "not_decided": "map semantics over histories as behaviour; that len/pos VALUES are right (position arithmetic inside BufWriterWithPos), LRU cache keying, value equality",
     },
     "C02": {
@@ -68,8 +68,8 @@ PROPS = {
     },
     "C04": {
         "title": "Concurrent gets, sets and deletes are linearizable and never panic or hang",
-        "rules": [k2.p6_reader_pool, k2.p6b_pool_filled, k6.n2_mmap_extent, k7.l1_lock_order, k2.p18_handle_delegation, k2.p3_publish_after_append, k2m.p4_merge_per_entry_order, k1.w2_index_mutators, k5.p17_read_under_index_guard, k3.s2_live_vs_recovery, k9.s14_reader_cache_keying, k9.s21_forwarding, k9.n3_no_new_panic_sites, k9.s7b_merge_counts_in_output],
-        "decides": "the pooled reader returns on every exit incl. unwind; index published only after flushed bytes (put and merge); index mutated only under the writer mutex or before sharing; the file read happens under the index shard guard; the pool is filled to capacity; no shard re-entrancy and an acyclic lock order; Handle operations return the writer's verdict obtained under the lock; each reader's file cache is keyed by the id asked for; Handle::get returns what its pooled reader returned; every explicit panic site (unwrap/expect/borrow/panic!) on the paths of get/put/delete/merge/sync is one of the reviewed ones; merge books live entries on the output they are in (an under-counted file makes a later overwrite underflow and panic)",
+        "rules": [k2.p6_reader_pool, k2.p6b_pool_filled, k6.n2_mmap_extent, k7.l1_lock_order, k2.p18_handle_delegation, k2.p3_publish_after_append, k2m.p4_merge_per_entry_order, k1.w2_index_mutators, k5.p17_read_under_index_guard, k3.s2_live_vs_recovery, k9.s14_reader_cache_keying, k9.s21_forwarding, k9.n3_no_new_panic_sites, k9.s7b_merge_counts_in_output, k1.w1_file_mutation_api, controls.control("W1")],
+        "decides": "the pooled reader returns on every exit incl. unwind; index published only after flushed bytes (put and merge); index mutated only under the writer mutex or before sharing; the file read happens under the index shard guard; the pool is filled to capacity; no shard re-entrancy and an acyclic lock order; Handle operations return the writer's verdict obtained under the lock; each reader's file cache is keyed by the id asked for; Handle::get returns what its pooled reader returned; every explicit panic site (unwrap/expect/borrow/panic!) on the paths of get/put/delete/merge/sync is one of the reviewed ones; merge books live entries on the output they are in (an under-counted file makes a later overwrite underflow and panic); data and merge output files are created exclusively (create_new): an id collision after a failed merge fails loudly instead of appending to a foreign file",
         "not_decided": "linearizability of histories and real-time order (statements about schedules of run-time events)",
     },
     "C05": {
@@ -110,20 +110,20 @@ PROPS = {
     },
     "C11": {
         "title": "Concurrent clients see one linearizable store",
-        "rules": [k2s.p11_command_application, k2.p18_handle_delegation, k1.w2_index_mutators, k5.p17_read_under_index_guard, k2.p3_publish_after_append, k3.s2_live_vs_recovery, k8.s9b_client_encoders, k9.s21_forwarding],
-        "decides": "a reply is written only after the blocking storage call completed and its result was taken on the Ok edge; the store-level discipline the anchors name (single writer for index mutation, read under shard guard); results come from under the writer lock; put/delete perform exactly the live-path index effects with the location of the appended bytes; the KeyValueStorage impl of Handle forwards set/get/del to put/get/delete unchanged",
+        "rules": [k2s.p11_command_application, k2.p18_handle_delegation, k1.w2_index_mutators, k5.p17_read_under_index_guard, k2.p3_publish_after_append, k3.s2_live_vs_recovery, k8.s9b_client_encoders, k9.s21_forwarding, k1.w1_file_mutation_api, controls.control("W1")],
+        "decides": "a reply is written only after the blocking storage call completed and its result was taken on the Ok edge; the store-level discipline the anchors name (single writer for index mutation, read under shard guard); results come from under the writer lock; put/delete perform exactly the live-path index effects with the location of the appended bytes; the KeyValueStorage impl of Handle forwards set/get/del to put/get/delete unchanged; exclusive file creation (a retried merge cannot append to a leftover output and re-point keys into it)",
         "not_decided": "linearizability itself",
     },
     "C12": {
         "title": "Hint files are only an accelerator: recovery with or without them agrees",
-        "rules": [k3.s1_roles, k2m.s7_s8_merge_sets, k3.s2_live_vs_recovery, k4.v5_hint_fallback, k5.ghint_hint_validation, k2m.p4_merge_per_entry_order, k5.e2_merge_errors_abort, k5.o1_recovery_order, k9.s15_position_tracking, k9.s16_file_names, k9.s22_one_codec, k2m.p5_merge_outputs_before_unlink, k2.p19_sync_chain],
-        "decides": "hint record fields mirror the re-pointed index entry by role; hint n describes data n; the hint loader does to the index what the scanner does for live records; only NotFound falls back to the scan of the same id; admission boundary includes the last record; merge aborts on a failed hint write; recovery order; the scan path derives (len, pos) from the reader's real positions; a hint file is found under the id of its data file with a different extension; one codec for data and hint records; a merge's hint output is flushed and fsynced (LogWriter::sync reaches File::sync_all) before the inputs it indexes are removed — the hint file of a generation is never shorter than its data file",
+        "rules": [k3.s1_roles, k2m.s7_s8_merge_sets, k3.s2_live_vs_recovery, k4.v5_hint_fallback, k5.ghint_hint_validation, k2m.p4_merge_per_entry_order, k5.e2_merge_errors_abort, k5.o1_recovery_order, k9.s15_position_tracking, k9.s16_file_names, k9.s22_one_codec, k2m.p5_merge_outputs_before_unlink, k2.p19_sync_chain, k1.w1_file_mutation_api, controls.control("W1")],
+        "decides": "hint record fields mirror the re-pointed index entry by role; hint n describes data n; the hint loader does to the index what the scanner does for live records; only NotFound falls back to the scan of the same id; admission boundary includes the last record; merge aborts on a failed hint write; recovery order; the scan path derives (len, pos) from the reader's real positions; a hint file is found under the id of its data file with a different extension; one codec for data and hint records; a merge's hint output is flushed and fsynced (LogWriter::sync reaches File::sync_all) before the inputs it indexes are removed — the hint file of a generation is never shorter than its data file; data and merge output files are created exclusively (create_new): an id collision after a failed merge fails loudly instead of appending to a foreign file",
         "not_decided": "that offsets written equal offsets a scan computes (run-time values)",
     },
     "C13": {
         "title": "Compaction actually reclaims space and never grows the store",
-        "rules": [k2m.s7_s8_merge_sets, k2m.p5_merge_outputs_before_unlink, k3.s5_trigger_threshold_roles, k9.s13_counter_arithmetic, k9.s2c_unconditional_counting, k9.s7b_merge_counts_in_output, k9.p14b_merge_rollover_test],
-        "decides": "only entries located in the selected files are copied and the selected set is exactly the removed set; each selected id loses accounting entry, hint file and data file, only NotFound tolerated; selection compares statistics with the thresholds, like with like; the counters behind the selection move as named and fragmentation = dead/(dead+live); dead records are counted unconditionally (a file holding only tombstones of absent keys still becomes eligible); copied entries are booked on the right output; merge outputs are rolled over on the running offset",
+        "rules": [k2m.s7_s8_merge_sets, k2m.p5_merge_outputs_before_unlink, k3.s5_trigger_threshold_roles, k9.s13_counter_arithmetic, k9.s2c_unconditional_counting, k9.s7b_merge_counts_in_output, k9.p14b_merge_rollover_test, k8.s12_config_setters],
+        "decides": "only entries located in the selected files are copied and the selected set is exactly the removed set; each selected id loses accounting entry, hint file and data file, only NotFound tolerated; selection compares statistics with the thresholds, like with like; the counters behind the selection move as named and fragmentation = dead/(dead+live); dead records are counted unconditionally (a file holding only tombstones of absent keys still becomes eligible); copied entries are booked on the right output; merge outputs are rolled over on the running offset; no setting (e.g. a threshold) is rewritten between the setters and the running store; a merge that returns Ok removed every file it selected",
         "not_decided": "sizes, 'exactly as large as a fresh store', idempotence",
     },
     "C14": {
@@ -159,14 +159,14 @@ PROPS = {
     },
     "C19": {
         "title": "Per-file live/dead accounting always matches the files' real contents",
-        "rules": [k3.s3_displaced_accounting, k3.s2_live_vs_recovery, k2m.s7_s8_merge_sets, k9.s13_counter_arithmetic, k9.s2c_unconditional_counting, k9.s7b_merge_counts_in_output],
-        "decides": "every displaced index entry is routed to overwrite(prev.len) on the file it lived in; every append is counted on the file it went to (before rollover) with the appended length; the rebuild counts like the live path; merge counts each copied entry live on the output it went to, looked up per entry; add_live/add_dead/overwrite change exactly the counters they name by 1 resp. the given byte count, on a single straight path; every record (also a tombstone of an absent key) is counted on the file it lies in on every path, in the writer and in the recovery scan alike; a merge books each copied entry on the output it was copied into (the id is not rolled over in between)",
+        "rules": [k3.s3_displaced_accounting, k3.s2_live_vs_recovery, k2m.s7_s8_merge_sets, k9.s13_counter_arithmetic, k9.s2c_unconditional_counting, k9.s7b_merge_counts_in_output, k2.p3_publish_after_append],
+        "decides": "every displaced index entry is routed to overwrite(prev.len) on the file it lived in; every append is counted on the file it went to (before rollover) with the appended length; the rebuild counts like the live path; merge counts each copied entry live on the output it went to, looked up per entry; add_live/add_dead/overwrite change exactly the counters they name by 1 resp. the given byte count, on a single straight path; every record (also a tombstone of an absent key) is counted on the file it lies in on every path, in the writer and in the recovery scan alike; a merge books each copied entry on the output it was copied into (the id is not rolled over in between); the index (and with it the accounting of the displaced entry) changes only after the record was appended: a failed delete leaves index and counters untouched",
         "not_decided": "equality with ground truth over histories; underflow of live_keys",
     },
     "C20": {
         "title": "A failed disk operation is reported and leaves the store consistent",
-        "rules": [k5.e1_no_dropped_result, controls.control("E1"), k5.e2_merge_errors_abort, k2m.p5_merge_outputs_before_unlink, k2.p13_writer_identity_pair, k2.p3_publish_after_append, k2.p1_append_flushes, k2m.s7_s8_merge_sets, k9.s15_position_tracking],
-        "decides": "no storage Result is dropped; no buffered output is left to Drop's error-swallowing flush before unlink/Ok; active_fileid and writer change together or not at all on every error path; the index is touched only on the Ok edge of the append; flush errors of append are propagated; merge aborts on the first failed disk operation (an error that is only logged does not count); hint after data so that a failed create leaves no orphan hint; the position an append reports is the tracked count of bytes handed to the buffered writer (bytes of a failed flush that are still buffered are counted, they precede the next record)",
+        "rules": [k5.e1_no_dropped_result, controls.control("E1"), k5.e2_merge_errors_abort, k2m.p5_merge_outputs_before_unlink, k2.p13_writer_identity_pair, k2.p3_publish_after_append, k2.p1_append_flushes, k2m.s7_s8_merge_sets, k9.s15_position_tracking, k4.v5_hint_fallback, k1.w1_file_mutation_api, controls.control("W1")],
+        "decides": "no storage Result is dropped; no buffered output is left to Drop's error-swallowing flush before unlink/Ok; active_fileid and writer change together or not at all on every error path; the index is touched only on the Ok edge of the append; flush errors of append are propagated; merge aborts on the first failed disk operation (an error that is only logged does not count); hint after data so that a failed create leaves no orphan hint; the position an append reports is the tracked count of bytes handed to the buffered writer (bytes of a failed flush that are still buffered are counted, they precede the next record); every error of the hint loader other than NotFound ends the open with that error (none is swallowed into an incomplete index); files are created exclusively, so a retried operation can never adopt the leftovers of a failed one",
         "not_decided": "the effect of each errno as behaviour; history-shaped fault defects D11/D12 (DESIGN.md section 6)",
     },
 }
